@@ -125,6 +125,33 @@ def runSessionW {σ : Type} (fr : Framing) (cfg : ServerCfg σ) (_decode : Decod
   let (chunks, kind) := cutScript script
   handleEventsW fr cfg kind n hs (readerRun fr chunks)
 
+/-! ### Commands cancel the pending read
+
+`run_one` is a `select!` over `reader.next_frame(..)` and `commands.recv()`: a command that arrives
+while the reader waits for the transport drops the future of `next_frame`.  `runSession` treats
+commands as invisible to the reader; `runSessionC` is the finer model in which every command that
+does not end the session cancels the pending read (`runChunksC`).  `Props/C05Cancel` proves the two
+equal for every script. -/
+
+/-- the deliveries of a script: `none` = a `ChangeDecoding` command (a cancelled read) -/
+def deliveriesC : List SessStep → List (Option Bytes) × EndKind
+  | [] => ([], .running)
+  | .data bs :: rest => let (cs, k) := deliveriesC rest; (some bs :: cs, k)
+  | .setDecode _ :: rest => let (cs, k) := deliveriesC rest; (none :: cs, k)
+  | .shutdown :: _ => ([], .shutdown)
+  | .readErr :: _ => ([], .reset)
+  | .eof :: _ => ([], .eof)
+
+def readerRunC : Framing → List (Option Bytes) → List Event
+  | .tcp, ds => runChunksC Mbap.parse .begin RB.empty ds
+  | .rtu, ds => runChunksC (Rtu.parse .request) .start RB.empty ds
+
+/-- `SessionTask::run` with reads cancelled by commands -/
+def runSessionC {σ : Type} (fr : Framing) (cfg : ServerCfg σ) (_decode : DecodeLevel)
+    (hs : List (Nat × σ)) (script : List SessStep) : SessOut σ :=
+  let (ds, kind) := deliveriesC script
+  handleEvents fr cfg kind hs (readerRunC fr ds)
+
 /-- the level in force after a prefix of the script -/
 def levelAfter (l : DecodeLevel) : List SessStep → DecodeLevel
   | [] => l
